@@ -13,7 +13,8 @@
 (***************************************************************************)
 EXTENDS VMemISA
 
-CONSTANTS Deviations,  \* as-implemented departures: "WidthAsImplemented", "NoLineSplit"
+CONSTANTS Deviations,  \* departures: "WidthAsImplemented", "NoLineSplit" (fixed in the tree), "LastPerBatch" (seeded)
+          Window,      \* ComputeUnit.InFlightVectorMemAccessLimit: transactions admitted and not yet answered
           LastIsLast,  \* environment: the response to an instruction's last request is not overtaken (reorder buffer)
           MemSize, MCOps, MCAddrs   \* model checking only
 
@@ -24,13 +25,14 @@ VARIABLES I,        \* the instruction (chosen at Init, then constant)
           mem,      \* byte address -> byte
           reg,      \* lane -> bytes of the destination registers
           phase,    \* "issued" | "coalesced" | "crashed"
+          toAdmit,  \* Seq of transactions coalesced but not yet admitted (the in-flight window is full)
           waiting,  \* Seq of transactions not yet sent (VectorMemoryUnit.transactionsWaiting + pipeline)
           inMem,    \* transactions at the memory, not yet performed
           ready,    \* performed, response not yet taken by the CU (reads carry the line's bytes)
           handled,  \* lines whose response the CU has handled
           outV,     \* OutstandingVectorMemAccess
           completed \* how many times the instruction's task was ended
-vars == <<I, mem, reg, phase, waiting, inMem, ready, handled, outV, completed>>
+vars == <<I, mem, reg, phase, toAdmit, waiting, inMem, ready, handled, outV, completed>>
 
 \* what the code transfers per lane (the ISA's width unless the deviation is on)
 CUBytes(opc) == IF Dev("WidthAsImplemented")
@@ -63,18 +65,30 @@ Coalesce ==
   /\ phase = "issued"
   /\ IF Dev("NoLineSplit") /\ AnyCross
      THEN \* defaultCoalescer: "req cannot hold data" for stores; the truncated write-back slice for loads
-          /\ phase' = "crashed" /\ UNCHANGED <<waiting, outV, completed>>
+          /\ phase' = "crashed" /\ UNCHANGED <<toAdmit, outV, completed>>
      ELSE LET ls == SortedLines({LineOf(b) : b \in CUTouched}) IN
           /\ phase' = "coalesced"
-          /\ waiting' = [i \in 1..Len(ls) |-> Txn(ls[i], i = Len(ls))]
+          /\ toAdmit' = [i \in 1..Len(ls) |-> Txn(ls[i], FALSE)]
           /\ outV' = IF Len(ls) = 0 THEN outV ELSE outV + 1
           /\ completed' = IF Len(ls) = 0 THEN completed + 1 ELSE completed
-  /\ UNCHANGED <<I, mem, reg, inMem, ready, handled>>
+  /\ UNCHANGED <<I, mem, reg, waiting, inMem, ready, handled>>
+
+\* executeFlatLoad / executeFlatStore: the transactions enter InFlightVectorMemAccess when they fit under the limit
+\* - all at once (the shipped code waits until they all fit) or in batches as room frees up.  The transaction that
+\* tells the CU that the instruction has finished (not CanWaitForCoalesce) is the instruction's final one.
+InFlight == Len(waiting) + Cardinality(inMem) + Cardinality(ready)
+Admit(k) ==
+  /\ phase = "coalesced" /\ k \in 1..Len(toAdmit) /\ InFlight + k <= Window
+  /\ LET batch == [i \in 1..k |-> [toAdmit[i] EXCEPT !.last =
+                     IF Dev("LastPerBatch") THEN i = k ELSE (i = k /\ k = Len(toAdmit))]]
+     IN waiting' = waiting \o batch
+  /\ toAdmit' = SubSeq(toAdmit, k + 1, Len(toAdmit))
+  /\ UNCHANGED <<I, mem, reg, phase, inMem, ready, handled, outV, completed>>
 
 Send ==
   /\ waiting # <<>>
   /\ inMem' = inMem \cup {Head(waiting)} /\ waiting' = Tail(waiting)
-  /\ UNCHANGED <<I, mem, reg, phase, ready, handled, outV, completed>>
+  /\ UNCHANGED <<I, mem, reg, phase, toAdmit, ready, handled, outV, completed>>
 
 \* the memory performs a transaction (any order)
 MemDo(t) ==
@@ -85,7 +99,7 @@ MemDo(t) ==
      ELSE /\ mem' = [b \in DOMAIN mem |-> IF b \in t.line..(t.line + LineSize - 1) /\ t.mask[b - t.line + 1] = 1
                                            THEN t.data[b - t.line + 1] ELSE mem[b]]
           /\ ready' = ready \cup {t}
-  /\ UNCHANGED <<I, reg, phase, waiting, handled, outV, completed>>
+  /\ UNCHANGED <<I, reg, phase, toAdmit, waiting, handled, outV, completed>>
 
 \* write-back of one response: every byte of an active lane that lives in this line goes to its place in the
 \* lane's registers; the piece that holds the most significant loaded byte also sets the extension bytes
@@ -108,7 +122,7 @@ Handle(t) ==
   /\ reg' = IF IsLoad(I.opc) THEN WriteBack(t) ELSE reg
   /\ outV' = IF t.last THEN outV - 1 ELSE outV
   /\ completed' = IF t.last THEN completed + 1 ELSE completed
-  /\ UNCHANGED <<I, mem, phase, waiting, inMem>>
+  /\ UNCHANGED <<I, mem, phase, toAdmit, waiting, inMem>>
 
 \* ---------------------------------------------------------------- MC set-up
 Mem0 == [b \in 0..(MemSize - 1) |-> (b * 37 + 131) % 256]
@@ -123,17 +137,20 @@ MCInstrs ==
 Init ==
   /\ I \in {i \in MCInstrs : \A l \in Lanes : i.a[l] + OpBytes(i.opc) <= MemSize /\ i.a[l] + 4 <= MemSize}
   /\ mem = Mem0 /\ reg = I.before
-  /\ phase = "issued" /\ waiting = <<>> /\ inMem = {} /\ ready = {} /\ handled = {} /\ outV = 0 /\ completed = 0
+  /\ phase = "issued" /\ toAdmit = <<>> /\ waiting = <<>> /\ inMem = {} /\ ready = {} /\ handled = {} /\ outV = 0 /\ completed = 0
 
-Next == Coalesce \/ Send \/ (\E t \in inMem : MemDo(t)) \/ (\E t \in ready : Handle(t))
+Next == Coalesce \/ (\E k \in 1..Len(toAdmit) : Admit(k)) \/ Send \/ (\E t \in inMem : MemDo(t)) \/ (\E t \in ready : Handle(t))
 Spec == Init /\ [][Next]_vars
-FairSpec == Spec /\ WF_vars(Coalesce) /\ WF_vars(Send) /\ WF_vars(\E t \in inMem : MemDo(t)) /\ WF_vars(\E t \in ready : Handle(t))
+FairSpec == Spec /\ WF_vars(Coalesce) /\ WF_vars(\E k \in 1..Len(toAdmit) : Admit(k)) /\ WF_vars(Send) /\ WF_vars(\E t \in inMem : MemDo(t)) /\ WF_vars(\E t \in ready : Handle(t))
 
 \* --------------------------------------------------------------- properties
-AllDone == phase = "coalesced" /\ waiting = <<>> /\ inMem = {} /\ ready = {}
+AllDone == phase = "coalesced" /\ toAdmit = <<>> /\ waiting = <<>> /\ inMem = {} /\ ready = {}
 NoCrash == phase # "crashed"
 \* transactions: only lines an active lane touches, and (once coalesced) all of them; stores carry exactly the active bytes
-AllTxns == {waiting[i] : i \in 1..Len(waiting)} \cup inMem \cup ready
+AllTxns == {toAdmit[i] : i \in 1..Len(toAdmit)} \cup {waiting[i] : i \in 1..Len(waiting)} \cup inMem \cup ready
+\* the in-flight window is respected, and exactly one transaction of the instruction is flagged as its last
+WindowRespected == InFlight <= Window
+OneLast == Cardinality({t \in AllTxns : t.last}) <= 1
 TxnSound ==
   /\ \A t \in AllTxns : t.line \in ExpLines(I)
   /\ phase = "coalesced" => {t.line : t \in AllTxns} \cup handled = ExpLines(I)
